@@ -60,6 +60,8 @@ def runtime_contract(qualname, args):
         return None
     fn = resolve(qualname)
     call_args = [a for a in args]
+    if list(K.params)[:1] == ["cls"]:
+        call_args = call_args[1:]  # classmethod: the contract's `cls` placeholder is not passed
     try:
         res = fn(*call_args)
         if K.returns in ("gen", "Seq") and not isinstance(res, (list, tuple)):
